@@ -327,6 +327,7 @@ pub fn run(prop: &'static str, tier: &str) -> (Acc, String) {
     let mut sweep_acc = Acc::default();
     if prop == "C19" {
         sweep_acc = capacity_sweep(quick);
+        sweep_acc.merge(big_data_sweep());
     }
     let acc = super::par_cases(cases.len(), |i, acc| {
         let c = &cases[i];
@@ -343,7 +344,7 @@ pub fn run(prop: &'static str, tier: &str) -> (Acc, String) {
         small,
         match prop {
             "C13" => "; for every start vertex: slice() and slice_some() with EVERY subset of the edge set as predicate, under EVERY drain order of slice's work-list (enumerated through the verif choice-point hook); plus wide shapes on Sodg<16> (chains, cycles, stars, bipartite graphs on 12-14 vertices, fans of 1..=16 labelled edges onto 1, 2 or 13 targets)",
-            "C19" => "; PLUS a dense capacity sweep: small graphs on ids spread 2^k apart (0, 3, 3+2^k, 4+2^k for 2^k = 8..512) traced under EVERY capacity from the minimum that fits up to the minimum + 2^k + 8 (and 2049): all traces equal; each graph is built three times in fresh objects (fresh hash seeds) and once as Sodg<16> with capacity 256: every public observable, incl. every slice with the grouping of its vertices as Debug shows it, must be identical",
+            "C19" => "; PLUS a dense capacity sweep: small graphs on ids spread 2^k apart (0, 3, 3+2^k, 4+2^k for 2^k = 8..512) traced under EVERY capacity from the minimum that fits up to the minimum + 2^k + 8 (and 2049): all traces equal; PLUS a big-data sweep: add/bind/put/save/load with a datum of 0, 150 000, ... 4 500 000 bytes under 4 configurations (the image grows with N and the capacity, so size-dependent paths are crossed at different lengths): all traces equal; each graph is built three times in fresh objects (fresh hash seeds) and once as Sodg<16> with capacity 256: every public observable, incl. every slice with the grouping of its vertices as Debug shows it, must be identical",
             "C18" => "; with every placement of {no data, 1 byte, 9 bytes (heap), empty datum, 17 bytes} (n <= 3); plus wide shapes on Sodg<16> (12-20 vertices) and graphs on ids of one, two and three digits (0..101 in 128 slots); to_xml()/to_dot() parsed back and compared with the graph (ascending id order), and all graphs with equal content must give equal text",
             _ => "; inspect(v) for every vertex (parsed back into (source,label,target) triples: the edges of all reachable vertices, each exactly once), Debug, Display, v_print(v); plus wide shapes on Sodg<16>",
         },
@@ -401,7 +402,66 @@ pub fn capacity_sweep(quick: bool) -> Acc {
     })
 }
 
+/// C19 with big data: the same four calls + save + load with a datum of 0, 150 000, 300 000 ...
+/// 4 500 000 bytes, under four configurations. The image grows with the capacity and with N, so a
+/// size-dependent path (a buffer, a limit) is crossed at a different datum length under each
+/// configuration; the step (150 000) is smaller than the difference between the images of the smallest
+/// and the biggest configuration (8192 slots: about 390 000 bytes more than 3 slots).
+fn big_trace<const N: usize>(cap: usize, len: usize) -> String {
+    guarded(|| {
+        let mut g: Sodg<N> = Sodg::empty(cap);
+        g.add(0);
+        g.add(1);
+        g.add(2);
+        g.bind(0, 1, lab(0));
+        let bytes: Vec<u8> = (0..len).map(|i| (i % 251) as u8).collect();
+        g.put(1, &sodg::Hex::from_slice(&bytes));
+        g.put(2, &sodg::Hex::from_slice(&[1, 2, 3]));
+        let f = crate::real::thread_file("big");
+        let saved = g.save(&f).is_ok();
+        let loaded = Sodg::<N>::load(&f);
+        let _ = std::fs::remove_file(&f);
+        let mut t = format!("save ok={saved}; load ok={};", loaded.is_ok());
+        if let Ok(mut l) = loaded {
+            t.push_str(&format!(" keys={:?}; data(1) as put={}; data(2)={:?}; then keys={:?}", crate::real::keys_sorted(&l), l.data(1).map(|h| h.to_vec()) == Some(bytes), l.data(2).map(|h| h.to_vec()), crate::real::keys_sorted(&l)));
+        }
+        t
+    })
+    .unwrap_or_else(|_| "panic".to_string())
+}
+
+fn big_traces(len: usize) -> Vec<(String, String)> {
+    vec![
+        ("Sodg<2>, 3 slots".to_string(), big_trace::<2>(3, len)),
+        ("Sodg<1>, 64 slots".to_string(), big_trace::<1>(64, len)),
+        ("Sodg<16>, 256 slots".to_string(), big_trace::<16>(256, len)),
+        ("Sodg<16>, 8192 slots".to_string(), big_trace::<16>(8192, len)),
+    ]
+}
+
+pub fn big_data_sweep() -> Acc {
+    let lens: Vec<usize> = (0..=30).map(|i| i * 150_000).collect();
+    super::par_cases(lens.len(), |i, acc| {
+        let ts = big_traces(lens[i]);
+        acc.evaluations += ts.len() as u64;
+        acc.nontrivial += 1;
+        acc.bump("big_data_lengths", 1);
+        if let Some((name, _)) = ts.iter().find(|(_, t)| *t != ts[0].1) {
+            acc.fail("C19", "graph:big-data-changes-answer", format!("add, bind, put of {} bytes, save, load answer differently under {} and {name}: `{}` vs `{}`", lens[i], ts[0].0, ts[0].1, ts.iter().find(|(n, _)| n == name).unwrap().1), json!({"engine": "graphgen", "property": "C19", "kind": "big-data-changes-answer", "len": lens[i]}));
+        }
+    })
+}
+
 pub fn replay(v: &Value) -> i32 {
+    if v["kind"].as_str() == Some("big-data-changes-answer") {
+        let ts = big_traces(v["len"].as_u64().unwrap_or(0) as usize);
+        for (n, t) in &ts {
+            println!("{n}: {t}");
+        }
+        let differ = ts.iter().any(|(_, t)| *t != ts[0].1);
+        println!("{}", if differ { "REPRODUCED property=C19" } else { "NOT REPRODUCED property=C19" });
+        return i32::from(differ);
+    }
     let prop = leak(v["property"].as_str().unwrap_or("C13"));
     if v["kind"].as_str() == Some("capacity-changes-answer") {
         let Ok(c) = serde_json::from_value::<GraphCase>(v["case"].clone()) else { return 2 };
